@@ -1,4 +1,343 @@
+//! C10 — every buildable circuit with satisfying inputs can be proven and verified.
+//!
+//! Exhaustive exploration (E1) of builder programs (bounded families, Horner shapes
+//! emphasised); for each program the first satisfying, fully defined input vector over the
+//! alphabet (per the reference semantics) is run, proven and verified with the real prover
+//! and verifier; all three must succeed. A representative subset is repeated under every
+//! prover configuration (lanes, Horner packing, minimum trace height).
+
+use std::sync::Mutex;
+use std::sync::atomic::{AtomicU64, Ordering};
+
+use p3_baby_bear::BabyBear;
+use p3_circuit_prover::batch_stark_prover::TablePacking;
+use p3_field::{PrimeCharacteristicRing, PrimeField64};
+use vpcore::serde_json::{Value, json};
+use vpcore::{Ctx, Histo, Report, finish};
+use vpe1::accept::{Verdict, prove_verify_bb1};
+use vpe1::enumerate::{AK, Family, VK};
+use vpe1::explore::{SeenSet, Stats, explore, input_vectors};
+use vpe1::prog::{Program, materialize, ref_eval, remove_call};
+
+type F = BabyBear;
+
+fn consts() -> Vec<F> {
+    vec![F::ZERO, F::ONE, F::from_u64(5), F::from_u64(7)]
+}
+
+fn fam(name: &str, vk: &[VK], ak: &[AK], k: usize, c: usize, mp: usize, mv: usize, cs: &[u8], wide: usize) -> Family {
+    Family {
+        name: name.into(),
+        value_kinds: vk.to_vec(),
+        assert_kinds: ak.to_vec(),
+        max_value_ops: k,
+        max_asserts: c,
+        max_pub: mp,
+        max_priv: mv,
+        consts: cs.to_vec(),
+        max_wide: wide,
+        wide_no_atoms: true,
+        sym_reduce: true,
+    }
+}
+
+fn c10_families(thorough: bool) -> Vec<Family> {
+    const BIN: [VK; 4] = [VK::Add, VK::Sub, VK::Mul, VK::Div];
+    const ALLA: [AK; 3] = [AK::Connect, AK::AssertZero, AK::AssertBool];
+    const CONN: [AK; 2] = [AK::Connect, AK::AssertZero];
+    let mut v = vec![
+        // single call of every kind (empty / single-row tables)
+        fam("all-k1-c1", &[VK::Add, VK::Sub, VK::Mul, VK::Div, VK::MulAdd, VK::Select, VK::Horner, VK::Bits(2)], &ALLA, 1, 1, 4, 1, &[0, 1, 2], 1),
+        // Horner shapes: arbitrary accumulators, chains, shared operands
+        fam("horner-k2-c0", &[VK::Horner], &CONN, 2, 0, 3, 0, &[2], 2),
+        // binary arithmetic with aliasing through one assertion
+        fam("bin-k2-c1", &BIN, &ALLA, 2, 1, 2, 1, &[2], 0),
+    ];
+    if thorough {
+        v.push(fam("bin-k2-c1-wide", &BIN, &ALLA, 2, 1, 3, 1, &[0, 1, 2], 0));
+        v.push(fam("horner-k3-c0", &[VK::Horner, VK::Add], &CONN, 3, 0, 3, 0, &[2], 3));
+        v.push(fam("wide-k2-c1", &[VK::Add, VK::Mul, VK::MulAdd, VK::Select, VK::Horner, VK::Bits(2)], &CONN, 2, 1, 3, 1, &[2], 2));
+        v.push(fam("bin-k2-c2", &BIN, &CONN, 2, 2, 3, 0, &[2], 0));
+    }
+    v
+}
+
+fn packings(thorough: bool) -> Vec<(String, TablePacking)> {
+    let mut v = vec![("default".to_string(), TablePacking::default())];
+    v.push(("pub2-alu2".into(), TablePacking::new(2, 2)));
+    v.push(("pub1-alu3-k3".into(), TablePacking::new(1, 3).with_horner_pack_k(3)));
+    if thorough {
+        v.push(("pub2-alu1-min8".into(), TablePacking::new(2, 1).with_min_trace_height(8)));
+        v.push(("pub1-alu2-k4".into(), TablePacking::new(1, 2).with_horner_pack_k(4)));
+    }
+    v
+}
+
+struct Outcome {
+    stage: &'static str, // "run" | "prove" | "verify" | "prep" | "panic" | "ok" | "nosat" | "precondition" | "skipped"
+    detail: String,
+    inputs: Vec<u64>,
+    /// Some(class) if the circuit exhibits a structural defect class (C09 audit / Horner
+    /// chaining) that makes an honest proof fail by design; such programs are not required
+    /// to pass, their failures are reported under the class key.
+    expected_fail: Option<String>,
+}
+
+fn first_sat_input(p: &Program, cs: &[F], n_pub: usize, n_priv: usize) -> Option<Vec<F>> {
+    let vals = [F::ONE, F::TWO, F::ZERO, F::from_u64(3), F::from_u64(5)];
+    let vals = if n_pub + n_priv >= 4 { &vals[..3] } else { &vals[..] };
+    for v in input_vectors(vals, n_pub + n_priv) {
+        let re = ref_eval::<F, F>(p, cs, &v[..n_pub], &v[n_pub..]);
+        if !re.undefined && re.sat {
+            return Some(v);
+        }
+    }
+    None
+}
+
+fn classify(circuit: &p3_circuit::Circuit<F>, nodes: &[p3_circuit::expr::Expr<F>]) -> Result<Option<String>, String> {
+    use vpe1::bus::{audit, horner_not_row_chained, ports, prepare, slot_sources};
+    if horner_not_row_chained(circuit) {
+        return Ok(Some("horner_acc_not_row_chained".into()));
+    }
+    let prim = prepare(circuit)?;
+    let ps = ports(circuit, &prim).unwrap_or_else(|e| vpcore::machinery_error(&format!("C10 cannot read preprocessed layout: {e}")));
+    let f = audit(&ps, &slot_sources(nodes, circuit));
+    Ok(f.iter().find(|x| x.unbalanced).map(|x| format!("bus_unbalanced:{}", x.key())))
+}
+
+fn check_program(p: &Program, cs: &[F], packing: &TablePacking, prove_expected_fail: bool) -> Option<Outcome> {
+    let m = materialize::<F, F>(p, cs).ok()?;
+    let (np, nv) = (m.n_pub, m.n_priv);
+    let nodes = m.nodes.clone();
+    let circuit = m.builder.build().ok()?; // not accepted by the builder: no claim
+    let Some(v) = first_sat_input(p, cs, np, nv) else {
+        return Some(Outcome { stage: "nosat", detail: String::new(), inputs: vec![], expected_fail: None });
+    };
+    let expected_fail = match classify(&circuit, &nodes) {
+        Ok(c) => c,
+        Err(e) if e.contains("UnclaimedPrivateInput") => {
+            // documented precondition: a private input must be consumed by an ALU op
+            return Some(Outcome { stage: "precondition", detail: e, inputs: vec![], expected_fail: None });
+        }
+        Err(e) => return Some(Outcome { stage: "prep", detail: e, inputs: vec![], expected_fail: None }),
+    };
+    if expected_fail.is_some() && !prove_expected_fail {
+        return Some(Outcome { stage: "skipped", detail: String::new(), inputs: vec![], expected_fail });
+    }
+    let iv: Vec<u64> = v.iter().map(|x| x.as_canonical_u64()).collect();
+    let mut r = circuit.runner();
+    let run = (|| {
+        r.set_public_inputs(&v[..np]).map_err(|e| format!("{e:?}"))?;
+        r.set_private_inputs(&v[np..]).map_err(|e| format!("{e:?}"))?;
+        r.run().map_err(|e| format!("{e:?}"))
+    })();
+    let traces = match run {
+        Ok(t) => t,
+        Err(e) => return Some(Outcome { stage: "run", detail: e, inputs: iv, expected_fail }),
+    };
+    let verdict = prove_verify_bb1(&circuit, &traces, packing);
+    let (stage, detail) = match verdict {
+        Verdict::Accepted => ("ok", String::new()),
+        Verdict::PrepErr(e) => ("prep", e),
+        Verdict::ProveErr(e) => ("prove", e),
+        Verdict::VerifyErr(e) => ("verify", e),
+        Verdict::Panic(e) => ("panic", e),
+    };
+    Some(Outcome { stage, detail, inputs: iv, expected_fail })
+}
+
+fn short(detail: &str) -> String {
+    // error kind without witness numbers
+    let mut s: String = detail.chars().filter(|c| !c.is_ascii_digit()).collect();
+    s.truncate(60);
+    s
+}
+
+fn minimise(p: &Program, stage: &str, cs: &[F], packing: &TablePacking) -> Program {
+    let fails = |q: &Program| check_program(q, cs, packing, false).is_some_and(|o| o.stage == stage && o.expected_fail.is_none());
+    let mut cur = p.clone();
+    loop {
+        let mut improved = false;
+        for j in (0..cur.calls.len()).rev() {
+            if let Some(q) = remove_call(&cur, j)
+                && fails(&q)
+            {
+                cur = q;
+                improved = true;
+                break;
+            }
+        }
+        if !improved {
+            return cur;
+        }
+    }
+}
+
 fn main() {
-    eprintln!("MACHINERY-ERROR: check c10 not built yet");
-    std::process::exit(2);
+    vpcore::install_quiet_panic_hook();
+    let ctx = Ctx::from_args("C10", "model_checking");
+    let cs = consts();
+    let report = Report::new();
+    let packs = packings(!ctx.quick());
+
+    if let Some(path) = &ctx.replay {
+        let r = vpcore::load_replay(path);
+        let p: Program = vpcore::serde_json::from_value(r["program"].clone()).unwrap_or_else(|e| vpcore::machinery_error(&format!("bad replay: {e}")));
+        let pk = r["packing"].as_str().unwrap_or("default").to_string();
+        let packing = packs.iter().find(|(n, _)| *n == pk).map(|(_, p)| p.clone()).unwrap_or_default();
+        println!("replaying: {} [{pk}]", p.show());
+        if let Ok(m) = materialize::<F, F>(&p, &cs) {
+            if let Ok(c) = m.builder.build() {
+                for op in &c.ops {
+                    println!("  op {op:?}");
+                }
+            }
+        }
+        if let Some(o) = check_program(&p, &cs, &packing, true) {
+            println!("  stage={} expected_fail={:?} inputs={:?} {}", o.stage, o.expected_fail, o.inputs, o.detail);
+            if !matches!(o.stage, "ok" | "nosat" | "precondition" | "skipped") {
+                let key = match &o.expected_fail {
+                    Some(c) => format!("honest_proof_fails:{c}"),
+                    None => format!("unexplained_failure:{}:{}", o.stage, short(&o.detail)),
+                };
+                report.violation(key, o.detail, json!({"program": p, "packing": pk}));
+            }
+        }
+        let cov = json!({"states":1,"transitions":1,"traces_validated_against_impl":1,"samples":[p.show()],"replay":true});
+        finish(&ctx, cov, vec![], &report);
+    }
+
+    let mut fams = c10_families(!ctx.quick());
+    if let Some(f) = ctx.opt("family") {
+        fams = c10_families(true).into_iter().filter(|x| x.name == f).collect();
+    }
+    let seen_keys = SeenSet::default();
+    let histo = Histo::new();
+    let samples: Mutex<Vec<Value>> = Mutex::new(vec![]);
+    let proved = AtomicU64::new(0);
+    let raw = AtomicU64::new(0);
+    let minimise_budget = AtomicU64::new(150);
+    let ef_budget = AtomicU64::new(if ctx.quick() { 150 } else { 5000 });
+    let class_passed = AtomicU64::new(0);
+    let mut fam_reports = vec![];
+    let (mut th, mut tc) = (0u64, 0u64);
+    let mut all_exhaustive = true;
+    // representatives for the configuration sweep: first program of each (family, #calls, last call kind)
+    let reps: Mutex<Vec<Program>> = Mutex::new(vec![]);
+    let rep_seen = SeenSet::default();
+
+    let record = |p: &Program, o: Outcome, pk: &str, packing: &TablePacking| {
+        raw.fetch_add(1, Ordering::Relaxed);
+        let (q, minimised) = if o.expected_fail.is_none() && minimise_budget.fetch_update(Ordering::Relaxed, Ordering::Relaxed, |b| b.checked_sub(1)).is_ok() {
+            (minimise(p, o.stage, &cs, packing), true)
+        } else {
+            (p.clone(), false)
+        };
+        let o2 = check_program(&q, &cs, packing, true).filter(|x| x.stage == o.stage).unwrap_or(o);
+        let key = match &o2.expected_fail {
+            Some(c) => format!("honest_proof_fails:{c}"),
+            None => format!("unexplained_failure:{}:{}", o2.stage, short(&o2.detail)),
+        };
+        report.violation_sized(
+            key.clone(),
+            format!("[{key}] e.g. {} inputs={:?} packing={pk}: {} fails: {}", q.show(), o2.inputs, o2.stage, o2.detail),
+            json!({"program": q, "found_in": p, "inputs": o2.inputs, "stage": o2.stage, "detail": o2.detail, "packing": pk, "minimised": minimised}),
+            q.show().len(),
+        );
+    };
+
+    for (fi, fam) in fams.iter().enumerate() {
+        let stats = Stats::default();
+        let seen_prune = SeenSet::default();
+        let stop_at = (0.80 * (fi as f64 + 1.0) / fams.len() as f64 + 0.02).min(0.82);
+        let t0 = ctx.elapsed_s();
+        explore::<F, F>(fam, &cs, &ctx, stop_at, &seen_keys, &seen_prune, &stats, &|_p, _m| {}, &|p, _m| {
+            // a budgeted number of expected-to-fail programs is proven anyway: it validates the
+            // structural classification against the implementation
+            let prove_ef = ef_budget.fetch_update(Ordering::Relaxed, Ordering::Relaxed, |b| b.checked_sub(1)).is_ok();
+            let Some(o) = check_program(p, &cs, &packs[0].1, prove_ef) else {
+                histo.add("build_rejected");
+                return;
+            };
+            let tag = if o.expected_fail.is_some() { "known_class" } else { "clean" };
+            histo.add(&format!("default/{tag}/{}", o.stage));
+            if matches!(o.stage, "nosat" | "precondition" | "skipped") {
+                if o.stage != "skipped" && prove_ef {
+                    ef_budget.fetch_add(1, Ordering::Relaxed);
+                }
+                return;
+            }
+            if o.expected_fail.is_none() && prove_ef {
+                ef_budget.fetch_add(1, Ordering::Relaxed);
+            }
+            proved.fetch_add(1, Ordering::Relaxed);
+            if o.stage != "ok" {
+                record(p, o, "default", &packs[0].1);
+            } else if o.expected_fail.is_some() {
+                // classified as unbalanced / not chained but the honest proof verifies:
+                // value-dependent (e.g. accumulator value 0) or the audit model is off
+                class_passed.fetch_add(1, Ordering::Relaxed);
+            } else {
+                // representative per shape class: multiset of call kinds
+                let mut kinds: Vec<String> = p.calls.iter().map(|c| format!("{c:?}").split('(').next().unwrap().to_string()).collect();
+                kinds.sort();
+                if rep_seen.insert(vpe1::explore::h128(&kinds.join(","))) {
+                    reps.lock().unwrap().push(p.clone());
+                }
+            }
+            let mut s = samples.lock().unwrap();
+            if s.len() < 6 && p.calls.len() >= 2 {
+                s.push(json!(p.show()));
+            }
+        });
+        let h = stats.histories.load(Ordering::Relaxed);
+        let c = stats.canonical.load(Ordering::Relaxed);
+        let to = stats.timed_out.load(Ordering::Relaxed);
+        th += h;
+        tc += c;
+        all_exhaustive &= !to;
+        fam_reports.push(json!({"family": fam.name, "bounds": fam, "histories": h, "new_canonical_programs": c, "exhaustive": !to, "wall_s": ctx.elapsed_s() - t0}));
+        eprintln!("family {} histories={} canonical={} exhaustive={} t={:.1}s", fam.name, h, c, !to, ctx.elapsed_s() - t0);
+    }
+
+    // configuration sweep on the representatives
+    use vpcore::rayon::prelude::*;
+    let reps = reps.into_inner().unwrap();
+    let sweep_done = AtomicU64::new(0);
+    let sweep: Vec<(usize, usize)> = (0..reps.len()).flat_map(|i| (1..packs.len()).map(move |j| (i, j))).collect();
+    sweep.par_iter().for_each(|&(i, j)| {
+        if ctx.used() > 0.97 {
+            return;
+        }
+        let (pk, packing) = &packs[j];
+        if let Some(o) = check_program(&reps[i], &cs, packing, false) {
+            sweep_done.fetch_add(1, Ordering::Relaxed);
+            histo.add(&format!("{pk}/{}", o.stage));
+            if !matches!(o.stage, "ok" | "nosat" | "precondition" | "skipped") {
+                record(&reps[i], o, pk, packing);
+            }
+        }
+    });
+    let sweep_complete = sweep_done.load(Ordering::Relaxed) as usize == sweep.len();
+
+    let cov = json!({
+        "states": tc,
+        "transitions": th,
+        "traces_validated_against_impl": proved.load(Ordering::Relaxed) + sweep_done.load(Ordering::Relaxed),
+        "samples": *samples.lock().unwrap(),
+        "state_definition": "a state is a builder program identified by the H1 snapshot; for every state with a satisfying input over the alphabet the real runner, prover and verifier are executed",
+        "families": fam_reports,
+        "exhaustive": all_exhaustive && sweep_complete,
+        "programs_proved_default_config": proved.load(Ordering::Relaxed),
+        "configuration_sweep": {"representatives": reps.len(), "configurations": packs.iter().map(|(n, _)| n.clone()).collect::<Vec<_>>(), "runs": sweep_done.load(Ordering::Relaxed), "complete": sweep_complete},
+        "outcome_histogram": histo.to_json(),
+        "raw_failures": raw.load(Ordering::Relaxed),
+        "known_class_programs_whose_honest_proof_verified_anyway": class_passed.load(Ordering::Relaxed),
+        "field": "BabyBear, D=1",
+    });
+    finish(&ctx, cov, vec![
+        "satisfying inputs are decided by the reference semantics (vpe1::prog::ref_eval)".into(),
+        "one satisfying input per program (the first over a 5-value alphabet)".into(),
+    ], &report);
 }
